@@ -1120,6 +1120,11 @@ loop:
 	}
 	close(jobChan)
 	wg.Wait()
+	if s.closed() {
+		// Interrupted by Close: the records were not sent to every peer. Report
+		// it, so that the keys are kept for after a restart.
+		return 0, ErrClosed
+	}
 
 	var failedKeys int
 	holdersSum := s.replicationFactor * nKeys
